@@ -447,8 +447,9 @@ def rule_R5(ctx, f):
     from . import hist_conc as _hcc
     from pvrules.rules import elem_src
     b = _hcc.proto_body(f, b)      # `zip(..).map(|..| ..).collect()` written out as a loop
-    sc = b.calls_to(["Bucket::set_cumulative_count", "set_cumulative_count"])
-    su = b.calls_to(["Bucket::set_upper_bound", "set_upper_bound"])
+    from pvrules.rules import field_sets
+    sc = field_sets(b, "Bucket", "cumulative_count", ["Bucket::set_cumulative_count", "set_cumulative_count"])
+    su = field_sets(b, "Bucket", "upper_bound", ["Bucket::set_upper_bound", "set_upper_bound"])
     ok = len(sc) == 1 and len(su) == 1
     ctx.ob(rid, "proto|setters", ok, "one set_cumulative_count and one set_upper_bound site expected", site=b.raw["span"]["at"])
     if not ok:
